@@ -33,6 +33,7 @@ func (l *Log) Tick() int64 { return atomic.AddInt64(&l.tick, 1) }
 
 // Add appends an event and returns its tick.
 func (l *Log) Add(e Event) int64 {
+	CallTick()
 	l.mu.Lock()
 	e.Tick = atomic.AddInt64(&l.tick, 1)
 	l.events = append(l.events, e)
